@@ -1,5 +1,1512 @@
 import PsaDhcp.Model.Config
 import PsaDhcp.Spec.ConfigSpec
 import PsaDhcp.Proofs.Ipdb
+/-
+Proofs for C18 (configuration handling of `server.New`).
+-/
 namespace PsaDhcp.Proofs.ConfigP
+open PsaDhcp PsaDhcp.Spec PsaDhcp.Proofs.Ipdb
+
+/-! ## `newServer` in stages
+
+`newServer` is a large `do` block; unfolding it with `simp`/`dsimp` is prohibitively expensive for
+the kernel (nested join points), and the kernel must never be made to evaluate the range checks
+of `toUip` on an open address (`Ip4.toNat` multiplies by `16777216`).  So the two database calls
+are first abstracted into opaque functions `AP` / `SD`, and `newServer` is shown equal to a staged
+copy `newServerP` by case analysis and evaluation only. -/
+
+section Generic
+variable {σ : Type}
+
+/-- The duplicate check and the extension of the override list. -/
+def dupCheck (db : IPDB σ) (ovs : List (Bytes × LOpts)) (mac : Bytes) (oo : LOpts) :
+    Except CfgErr (IPDB σ × List (Bytes × LOpts)) :=
+  if ovs.any (·.1 = mac) then .error .duplicateClient else .ok (db, ovs ++ [(mac, oo)])
+
+/-- One client entry (the `step` of `newServer`) over an abstract `AddPermanentClient`. -/
+def stepC (AP : IPDB σ → Int → Option Ip4 → Duid → IPDB σ × Except DbErr Unit) (lo : LOpts) (t : Int)
+    (acc : Except CfgErr (IPDB σ × List (Bytes × LOpts))) (c : RawClient) :
+    Except CfgErr (IPDB σ × List (Bytes × LOpts)) :=
+  match acc with
+  | .error e => .error e
+  | .ok (db, ovs) =>
+    match c.mac with
+    | none => .error .badMac
+    | some mac =>
+      match setClientOverrides lo c with
+      | .error e => .error e
+      | .ok oo =>
+        match oo.ip with
+        | none => dupCheck db ovs mac oo
+        | some ip =>
+          match AP db t (some ip) (sduid mac) with
+          | (db', .ok _) => dupCheck db' ovs mac oo
+          | (_, .error _) => .error .staticRejected
+
+def mkOv : Bytes × LOpts → Override := fun (m, o) =>
+  { mac := m, ip := o.ip, router := o.router, dns := o.dns, ntp := o.ntp, hostname := o.hostname }
+
+def mkCfg (r : RawCfg) (selfIp : Ip4) (lo : LOpts) (p : Nat) (ovs : List (Bytes × LOpts)) : SrvCfg :=
+  { selfIp := selfIp, selfMac := r.selfMac, leaseNs := lo.leaseNs, mask := maskOf p, router := lo.router,
+    dns := lo.dns, ntp := lo.ntp, domain := lo.domain, overrides := ovs.map mkOv }
+
+/-- Registration of the server's own address and assembly of the result. -/
+def finish (AP : IPDB σ → Int → Option Ip4 → Duid → IPDB σ × Except DbErr Unit) (r : RawCfg) (t : Int)
+    (selfIp : Ip4) (lo : LOpts) (p : Nat) (F : Except CfgErr (IPDB σ × List (Bytes × LOpts))) : Except CfgErr (Started σ) :=
+  match F with
+  | .error e => .error e
+  | .ok (db1, ovs) =>
+    match AP db1 t (some selfIp) (sduid r.selfMac) with
+    | (db2, .ok _) => .ok { cfg := mkCfg r selfIp lo p ovs, db := db2, merged := ovs }
+    | (_, .error _) => .error .selfOutside
+
+def tailP (AP : IPDB σ → Int → Option Ip4 → Duid → IPDB σ × Except DbErr Unit) (r : RawCfg) (clients : List RawClient) (t : Int)
+    (selfIp : Ip4) (lo : LOpts) (p : Nat) (db0 : IPDB σ) : Except CfgErr (Started σ) :=
+  finish AP r t selfIp lo p
+    (clients.foldl (stepC AP lo t) (pure (if r.staticOnly then db0.disableDynamic else db0, [])))
+
+def newServerP (AP : IPDB σ → Int → Option Ip4 → Duid → IPDB σ × Except DbErr Unit)
+    (SD : IPDB σ → Option Ip4 → Option Ip4 → IPDB σ × Except DbErr Unit)
+    (empty : σ) (r : RawCfg) (clients : List RawClient) (t : Int) : Except CfgErr (Started σ) :=
+  match r.selfIp with
+  | none => .error .noSelfAddr
+  | some selfIp =>
+    match parseConfig r with
+    | .error e => .error e
+    | .ok (lo, base, p) =>
+      match r.dyn with
+      | .absent => tailP AP r clients t selfIp lo p (IPDB.new empty base p)
+      | .badFormat => .error .badDynFormat
+      | .badIp => .error .badDynIp
+      | .range a b =>
+        match SD (IPDB.new empty base p) (some a) (some b) with
+        | (db', .ok _) => tailP AP r clients t selfIp lo p db'
+        | (_, .error _) => .error .dynOutside
+
+theorem foldl_congr_step {α β : Type} {f g : β → α → β} (h : ∀ b a, f b a = g b a) (l : List α) (b : β) :
+    l.foldl f b = l.foldl g b := by
+  have : f = g := funext fun b => funext fun a => h b a
+  rw [this]
+
+/-- Closes `(do-block of one client) acc c = stepC AP lo t acc c` by case analysis and evaluation. -/
+local macro "step_tac" AP:ident lo:ident : tactic => `(tactic| (
+  intro acc c
+  unfold stepC
+  cases acc with
+  | error e => rfl
+  | ok v =>
+    obtain ⟨db, ovs⟩ := v
+    cases hm : RawClient.mac c with
+    | none => rfl
+    | some mac =>
+      cases hs : setClientOverrides $lo c with
+      | error e => rfl
+      | ok oo =>
+        obtain ⟨ip, dom, host, ro, dns, ntp, lease⟩ := oo
+        cases ip with
+        | none => rfl
+        | some i =>
+          conv => lhs; whnf
+          conv => rhs; whnf
+          generalize $AP db _ (some i) (sduid mac) = res
+          obtain ⟨db', e⟩ := res
+          cases e <;> rfl))
+
+/-- From the point where the fold over the clients is the head of both sides. -/
+local macro "tail_tac" AP:ident lo:ident t:ident clients:ident selfIp:ident r:ident : tactic => `(tactic| (
+  rewrite [foldl_congr_step (g := stepC $AP $lo $t)]
+  · conv => rhs; whnf
+    generalize List.foldl (stepC $AP $lo $t) _ $clients = F
+    cases F with
+    | error e => rfl
+    | ok v =>
+      obtain ⟨db1, ovs⟩ := v
+      conv => lhs; whnf
+      conv => rhs; whnf
+      generalize $AP db1 $t (some $selfIp) (sduid (RawCfg.selfMac $r)) = res
+      obtain ⟨db2, e⟩ := res
+      cases e <;> rfl
+  · step_tac $AP $lo))
+
+theorem newServer_eq (S : Store σ) (empty : σ) (r : RawCfg) (clients : List RawClient) (t : Int) :
+    newServer S empty r clients t = newServerP (IPDB.addPermanent S) IPDB.setDynamicRange empty r clients t := by
+  unfold newServer
+  generalize IPDB.addPermanent S = AP
+  generalize @IPDB.setDynamicRange σ = SD
+  revert AP SD
+  -- as a separate lemma, so that the kernel checks it with `AP`, `SD` opaque
+  as_aux_lemma =>
+  intro AP SD
+  unfold newServerP
+  cases r.selfIp with
+  | none => rfl
+  | some selfIp =>
+    cases parseConfig r with
+    | error e => rfl
+    | ok x =>
+      obtain ⟨lo, base, p⟩ := x
+      cases r.dyn with
+      | badFormat => rfl
+      | badIp => rfl
+      | absent =>
+        conv => lhs; whnf
+        tail_tac AP lo t clients selfIp r
+      | range a b =>
+        conv => lhs; whnf
+        conv => rhs; whnf
+        generalize SD (IPDB.new empty base p) (some a) (some b) = res
+        obtain ⟨db0, e⟩ := res
+        cases e with
+        | error x => rfl
+        | ok u =>
+          conv => lhs; whnf
+          tail_tac AP lo t clients selfIp r
+
+/-! ### Normal forms of the stages (still over opaque `AP`, `SD`) -/
+
+theorem dupCheck_ok_iff {db db' : IPDB σ} {ovs ovs' : List (Bytes × LOpts)} {mac : Bytes} {oo : LOpts} :
+    dupCheck db ovs mac oo = .ok (db', ovs') ↔
+      ovs.any (·.1 = mac) = false ∧ db' = db ∧ ovs' = ovs ++ [(mac, oo)] := by
+  unfold dupCheck
+  cases h : ovs.any (·.1 = mac) with
+  | true => simp
+  | false =>
+    simp only [Bool.false_eq_true, if_false, Except.ok.injEq, Prod.mk.injEq, true_and]
+    constructor
+    · rintro ⟨rfl, rfl⟩; exact ⟨rfl, rfl⟩
+    · rintro ⟨rfl, rfl⟩; exact ⟨rfl, rfl⟩
+
+/-- The static address of an entry (if any) is accepted by the database. -/
+def AddOK (AP : IPDB σ → Int → Option Ip4 → Duid → IPDB σ × Except DbErr Unit) (t : Int) (db : IPDB σ)
+    (oip : Option Ip4) (mac : Bytes) (db' : IPDB σ) : Prop :=
+  (oip = none ∧ db' = db) ∨ ∃ ip u, oip = some ip ∧ AP db t (some ip) (sduid mac) = (db', .ok u)
+
+variable (AP : IPDB σ → Int → Option Ip4 → Duid → IPDB σ × Except DbErr Unit)
+variable (SD : IPDB σ → Option Ip4 → Option Ip4 → IPDB σ × Except DbErr Unit)
+
+theorem stepC_error (lo : LOpts) (t : Int) (e : CfgErr) (c : RawClient) : stepC AP lo t (.error e) c = .error e := rfl
+
+theorem stepC_ok_iff (lo : LOpts) (t : Int) (db db' : IPDB σ) (ovs ovs' : List (Bytes × LOpts)) (c : RawClient) :
+    stepC AP lo t (.ok (db, ovs)) c = .ok (db', ovs') ↔
+      ∃ mac oo, c.mac = some mac ∧ setClientOverrides lo c = .ok oo ∧ AddOK AP t db oo.ip mac db' ∧
+        ovs.any (·.1 = mac) = false ∧ ovs' = ovs ++ [(mac, oo)] := by
+  constructor
+  · intro h
+    unfold stepC at h
+    simp only at h
+    cases hm : c.mac with
+    | none => rw [hm] at h; simp at h
+    | some mac =>
+      rw [hm] at h
+      simp only at h
+      cases hs : setClientOverrides lo c with
+      | error e => rw [hs] at h; simp at h
+      | ok oo =>
+        rw [hs] at h
+        simp only at h
+        refine ⟨mac, oo, rfl, rfl, ?_⟩
+        cases hip : oo.ip with
+        | none =>
+          rw [hip] at h
+          simp only [dupCheck_ok_iff] at h
+          exact ⟨Or.inl ⟨rfl, h.2.1⟩, h.1, h.2.2⟩
+        | some ip =>
+          rw [hip] at h
+          simp only at h
+          cases hap : AP db t (some ip) (sduid mac) with
+          | mk db1 res =>
+            rw [hap] at h
+            cases res with
+            | error x => simp at h
+            | ok u =>
+              simp only [dupCheck_ok_iff] at h
+              obtain ⟨h1, rfl, h3⟩ := h
+              exact ⟨Or.inr ⟨ip, u, rfl, hap⟩, h1, h3⟩
+  · rintro ⟨mac, oo, hm, hs, hadd, hany, rfl⟩
+    unfold stepC
+    simp only [hm, hs]
+    rcases hadd with ⟨hip, rfl⟩ | ⟨ip, u, hip, hap⟩
+    · rw [hip]; exact dupCheck_ok_iff.2 ⟨hany, rfl, rfl⟩
+    · rw [hip]; simp only [hap]; exact dupCheck_ok_iff.2 ⟨hany, rfl, rfl⟩
+
+theorem foldl_stepC_error (lo : LOpts) (t : Int) (e : CfgErr) (cs : List RawClient) :
+    cs.foldl (stepC AP lo t) (.error e) = .error e := by
+  induction cs with
+  | nil => rfl
+  | cons c cs ih => rw [List.foldl_cons, stepC_error]; exact ih
+
+theorem foldl_stepC_snoc (lo : LOpts) (t : Int) (init : Except CfgErr (IPDB σ × List (Bytes × LOpts)))
+    (cs : List RawClient) (c : RawClient) :
+    (cs ++ [c]).foldl (stepC AP lo t) init = stepC AP lo t (cs.foldl (stepC AP lo t) init) c := by
+  rw [List.foldl_append]; rfl
+
+/-- The dynamic-range stage. -/
+def DynOK (db : IPDB σ) (d : RawDyn) (db0 : IPDB σ) : Prop :=
+  (d = .absent ∧ db0 = db) ∨ ∃ a b u, d = .range a b ∧ SD db (some a) (some b) = (db0, .ok u)
+
+def startDb (r : RawCfg) (db0 : IPDB σ) : IPDB σ := if r.staticOnly then db0.disableDynamic else db0
+
+theorem finish_ok_iff (r : RawCfg) (t : Int) (selfIp : Ip4) (lo : LOpts) (p : Nat)
+    (F : Except CfgErr (IPDB σ × List (Bytes × LOpts))) (s : Started σ) :
+    finish AP r t selfIp lo p F = .ok s ↔
+      ∃ db1 ovs db2 u, F = .ok (db1, ovs) ∧ AP db1 t (some selfIp) (sduid r.selfMac) = (db2, .ok u) ∧
+        s = { cfg := mkCfg r selfIp lo p ovs, db := db2, merged := ovs } := by
+  cases F with
+  | error e => simp [finish]
+  | ok v =>
+    obtain ⟨db1, ovs⟩ := v
+    constructor
+    · intro h
+      unfold finish at h
+      simp only at h
+      cases hap : AP db1 t (some selfIp) (sduid r.selfMac) with
+      | mk db2 res =>
+        rw [hap] at h
+        cases res with
+        | error x => simp at h
+        | ok u =>
+          simp only [Except.ok.injEq] at h
+          exact ⟨db1, ovs, db2, u, rfl, hap, h.symm⟩
+    · rintro ⟨db1', ovs', db2, u, hF, hap, rfl⟩
+      cases hF
+      unfold finish
+      simp only [hap]
+
+theorem tailP_ok_iff (r : RawCfg) (clients : List RawClient) (t : Int) (selfIp : Ip4) (lo : LOpts) (p : Nat)
+    (db0 : IPDB σ) (s : Started σ) :
+    tailP AP r clients t selfIp lo p db0 = .ok s ↔
+      ∃ db1 ovs db2 u, clients.foldl (stepC AP lo t) (.ok (startDb r db0, [])) = .ok (db1, ovs) ∧
+        AP db1 t (some selfIp) (sduid r.selfMac) = (db2, .ok u) ∧
+        s = { cfg := mkCfg r selfIp lo p ovs, db := db2, merged := ovs } := by
+  unfold tailP
+  rw [finish_ok_iff]
+  rfl
+
+theorem newServerP_ok_iff (empty : σ) (r : RawCfg) (clients : List RawClient) (t : Int) (s : Started σ) :
+    newServerP AP SD empty r clients t = .ok s ↔
+      ∃ selfIp lo base p db0 db1 ovs db2 u,
+        r.selfIp = some selfIp ∧ parseConfig r = .ok (lo, base, p) ∧ DynOK SD (IPDB.new empty base p) r.dyn db0 ∧
+        clients.foldl (stepC AP lo t) (.ok (startDb r db0, [])) = .ok (db1, ovs) ∧
+        AP db1 t (some selfIp) (sduid r.selfMac) = (db2, .ok u) ∧
+        s = { cfg := mkCfg r selfIp lo p ovs, db := db2, merged := ovs } := by
+  constructor
+  · intro h
+    unfold newServerP at h
+    cases hs : r.selfIp with
+    | none => rw [hs] at h; simp at h
+    | some selfIp =>
+      rw [hs] at h
+      simp only at h
+      cases hp : parseConfig r with
+      | error e => rw [hp] at h; simp at h
+      | ok x =>
+        obtain ⟨lo, base, p⟩ := x
+        rw [hp] at h
+        simp only at h
+        cases hd : r.dyn with
+        | badFormat => rw [hd] at h; simp at h
+        | badIp => rw [hd] at h; simp at h
+        | absent =>
+          rw [hd] at h
+          simp only at h
+          obtain ⟨db1, ovs, db2, u, h1, h2, h3⟩ := (tailP_ok_iff AP r clients t selfIp lo p _ s).1 h
+          exact ⟨selfIp, lo, base, p, _, db1, ovs, db2, u, rfl, rfl, Or.inl ⟨rfl, rfl⟩, h1, h2, h3⟩
+        | range a b =>
+          rw [hd] at h
+          simp only at h
+          cases hsd : SD (IPDB.new empty base p) (some a) (some b) with
+          | mk db0 res =>
+            rw [hsd] at h
+            cases res with
+            | error x => simp at h
+            | ok u0 =>
+              simp only at h
+              obtain ⟨db1, ovs, db2, u, h1, h2, h3⟩ := (tailP_ok_iff AP r clients t selfIp lo p _ s).1 h
+              exact ⟨selfIp, lo, base, p, db0, db1, ovs, db2, u, rfl, rfl, Or.inr ⟨a, b, u0, rfl, hsd⟩, h1, h2, h3⟩
+  · rintro ⟨selfIp, lo, base, p, db0, db1, ovs, db2, u, hs, hp, hd, h1, h2, h3⟩
+    unfold newServerP
+    simp only [hs, hp]
+    rcases hd with ⟨hd, rfl⟩ | ⟨a, b, u0, hd, hsd⟩
+    · simp only [hd]
+      exact (tailP_ok_iff AP r clients t selfIp lo p _ s).2 ⟨db1, ovs, db2, u, h1, h2, h3⟩
+    · simp only [hd, hsd]
+      exact (tailP_ok_iff AP r clients t selfIp lo p _ s).2 ⟨db1, ovs, db2, u, h1, h2, h3⟩
+
+end Generic
+
+/-! ## Parsing of the address fields -/
+
+theorem entOpt_bad : entOpt .bad = none := by decide
+theorem entOpt_empty : entOpt .empty = some none := by decide
+theorem entOpt_ok (ip : Ip4) : entOpt (.ok ip) = some (some ip) := by
+  simp [entOpt, ipv4List]
+
+theorem entOpt_eq_some_iff (e : Ent) (o : Option Ip4) : entOpt e = some o ↔ e ≠ .bad ∧ o = entIp e := by
+  cases e with
+  | bad => simp [entOpt_bad]
+  | empty => simp [entOpt_empty, entIp]; exact eq_comm
+  | ok ip => simp [entOpt_ok, entIp]; exact eq_comm
+
+theorem mapM_ent (g : Ent → Option Ip4) (hg : ∀ e, g e = entIp e) :
+    ∀ (l : List Ent) (l' : List Ip4), l.mapM g = some l' ↔ l = l'.map Ent.ok := by
+  intro l
+  induction l with
+  | nil => intro l'; cases l' <;> simp
+  | cons e l ih =>
+    intro l'
+    rw [List.mapM_cons, hg]
+    cases e with
+    | empty => cases l' <;> simp [entIp]
+    | bad => cases l' <;> simp [entIp]
+    | ok ip =>
+      cases hm : l.mapM g with
+      | none =>
+        cases l' with
+        | nil => simp [entIp]
+        | cons x xs =>
+          simp only [entIp, Option.bind_eq_bind, Option.bind_some, Option.bind_none, reduceCtorEq, List.map_cons,
+            List.cons.injEq, Ent.ok.injEq, false_iff, not_and]
+          intro _ h
+          have := (ih xs).2 h
+          rw [hm] at this
+          cases this
+      | some bs =>
+        have hb := (ih bs).1 hm
+        subst hb
+        cases l' with
+        | nil => simp [entIp]
+        | cons x xs =>
+          simp only [entIp, Option.bind_eq_bind, Option.bind_some, Option.pure_def, Option.some.injEq, List.cons.injEq,
+            List.map_cons, Ent.ok.injEq]
+          constructor
+          · rintro ⟨rfl, rfl⟩; exact ⟨rfl, rfl⟩
+          · rintro ⟨rfl, h⟩
+            refine ⟨rfl, ?_⟩
+            have := (ih xs).2 h
+            rw [hm] at this
+            exact Option.some.inj this
+
+theorem map_ok_ne_empty (l' : List Ip4) : l'.map Ent.ok ≠ [Ent.empty] := by
+  cases l' with
+  | nil => simp
+  | cons x xs => simp
+
+theorem ipv4List_eq_some_iff (l : List Ent) (l' : List Ip4) :
+    ipv4List l = some l' ↔ (l = [.empty] ∧ l' = []) ∨ l = l'.map Ent.ok := by
+  unfold ipv4List
+  by_cases h : l = [.empty]
+  · rw [if_pos h]
+    subst h
+    simp only [Option.some.injEq, true_and]
+    constructor
+    · intro h; exact Or.inl h.symm
+    · rintro (h | h)
+      · exact h.symm
+      · exact absurd h.symm (map_ok_ne_empty l')
+  · rw [if_neg h, mapM_ent _ (fun e => by cases e <;> rfl)]
+    simp [h]
+
+theorem allOk_iff (l : List Ent) : (∀ e ∈ l, ∃ ip, e = .ok ip) ↔ ∃ l' : List Ip4, l = l'.map Ent.ok := by
+  induction l with
+  | nil => simp
+  | cons e l ih =>
+    constructor
+    · intro h
+      obtain ⟨ip, rfl⟩ := h e (by simp)
+      obtain ⟨l', rfl⟩ := ih.1 (fun e he => h e (by simp [he]))
+      exact ⟨ip :: l', rfl⟩
+    · rintro ⟨l', h⟩
+      cases l' with
+      | nil => simp at h
+      | cons x xs =>
+        simp only [List.map_cons, List.cons.injEq] at h
+        obtain ⟨rfl, rfl⟩ := h
+        intro e he
+        simp only [List.mem_cons, List.mem_map] at he
+        rcases he with rfl | ⟨y, _, rfl⟩
+        · exact ⟨_, rfl⟩
+        · exact ⟨_, rfl⟩
+
+theorem ipv4List_isSome_iff (l : List Ent) : (∃ l', ipv4List l = some l') ↔ listValid l := by
+  unfold listValid
+  rw [allOk_iff]
+  constructor
+  · rintro ⟨l', h⟩
+    rcases (ipv4List_eq_some_iff l l').1 h with ⟨h, _⟩ | h
+    · exact Or.inl h
+    · exact Or.inr ⟨l', h⟩
+  · rintro (h | ⟨l', h⟩)
+    · exact ⟨[], (ipv4List_eq_some_iff l []).2 (Or.inl ⟨h, rfl⟩)⟩
+    · exact ⟨l', (ipv4List_eq_some_iff l l').2 (Or.inr h)⟩
+
+theorem ipv4List_length {l : List Ent} {l' : List Ip4} (h : ipv4List l = some l') : l'.length = listLen l := by
+  unfold listLen
+  rcases (ipv4List_eq_some_iff l l').1 h with ⟨h1, h2⟩ | h1
+  · rw [if_pos h1, h2]; rfl
+  · rw [if_neg (by rw [h1]; exact map_ok_ne_empty l'), h1, List.length_map]
+
+/-! ## `parseConfig` and `setClientOverrides` -/
+
+theorem parseConfig_ok_iff (r : RawCfg) (lo : LOpts) (base p : Nat) :
+    parseConfig r = .ok (lo, base, p) ↔
+      r.network = some (base, p) ∧ ∃ l ro dns ntp, r.lease = some l ∧ 60000000000 ≤ l ∧ entOpt r.router = some ro ∧
+        ipv4List r.dns = some dns ∧ ipv4List r.ntp = some ntp ∧
+        lo = { domain := r.domain, router := ro, dns := dns, ntp := ntp, leaseNs := l } ∧ lo.representable = true := by
+  unfold parseConfig
+  simp only [bind, Except.bind, pure, Except.pure, throw, throwThe, MonadExceptOf.throw]
+  cases h0 : r.network with
+  | none => simp
+  | some x =>
+    obtain ⟨b0, p0⟩ := x
+    cases h1 : r.lease with
+    | none => simp
+    | some l =>
+      by_cases hl : l < 60000000000
+      · simp only [if_pos hl, reduceCtorEq, Option.some.injEq, false_iff, not_and, not_exists]
+        intro _ l' ro dns ntp h; subst h; omega
+      · simp only [if_neg hl]
+        cases h2 : entOpt r.router with
+        | none => simp
+        | some ro =>
+          cases h3 : ipv4List r.dns with
+          | none => simp
+          | some dns =>
+            cases h4 : ipv4List r.ntp with
+            | none => simp
+            | some ntp =>
+              simp only [Option.some.injEq, Prod.mk.injEq]
+              by_cases hr : ({ domain := r.domain, router := ro, dns := dns, ntp := ntp, leaseNs := l } : LOpts).representable = true
+              · simp only [hr, not_true_eq_false, if_false, Except.ok.injEq, Prod.mk.injEq]
+                constructor
+                · rintro ⟨rfl, rfl, rfl⟩
+                  exact ⟨⟨rfl, rfl⟩, l, ro, dns, ntp, rfl, by omega, rfl, rfl, rfl, rfl, hr⟩
+                · rintro ⟨⟨rfl, rfl⟩, l', ro', dns', ntp', rfl, _, rfl, rfl, rfl, rfl, _⟩
+                  exact ⟨rfl, rfl, rfl⟩
+              · simp only [hr, not_false_eq_true, if_true, reduceCtorEq, false_iff, not_and, not_exists]
+                rintro _ l' ro' dns' ntp' rfl _ rfl rfl rfl rfl
+                exact hr
+
+/-- The options of a client entry merged over the global ones. -/
+def merged (lo : LOpts) (c : RawClient) (ip ro : Option Ip4) (dns ntp : List Ip4) : LOpts :=
+  { ip := (match ip with | some i => some i | none => lo.ip),
+    domain := lo.domain,
+    hostname := (if c.hostname.isEmpty then lo.hostname else c.hostname),
+    router := (match ro with | some i => some i | none => lo.router),
+    dns := (if dns.isEmpty then lo.dns else dns),
+    ntp := (if ntp.isEmpty then lo.ntp else ntp),
+    leaseNs := lo.leaseNs }
+
+theorem setClientOverrides_ok_iff (lo : LOpts) (c : RawClient) (oo : LOpts) :
+    setClientOverrides lo c = .ok oo ↔
+      ∃ ip ro dns ntp, entOpt c.ip = some ip ∧ entOpt c.router = some ro ∧ ipv4List c.dns = some dns ∧
+        ipv4List c.ntp = some ntp ∧ oo = merged lo c ip ro dns ntp ∧ oo.representable = true := by
+  unfold setClientOverrides
+  simp only [bind, Except.bind, pure, Except.pure, throw, throwThe, MonadExceptOf.throw]
+  cases h1 : entOpt c.ip with
+  | none => simp
+  | some ip =>
+    cases h2 : entOpt c.router with
+    | none => simp
+    | some ro =>
+      cases h3 : ipv4List c.dns with
+      | none => simp
+      | some dns =>
+        cases h4 : ipv4List c.ntp with
+        | none => simp
+        | some ntp =>
+          simp only [Option.some.injEq]
+          change (if ¬ (merged lo c ip ro dns ntp).representable = true then Except.error CfgErr.clientUnrepresentable
+            else Except.ok (merged lo c ip ro dns ntp)) = Except.ok oo ↔ _
+          by_cases hr : (merged lo c ip ro dns ntp).representable = true
+          · simp only [hr, not_true_eq_false, if_false, Except.ok.injEq]
+            constructor
+            · rintro rfl
+              exact ⟨ip, ro, dns, ntp, rfl, rfl, rfl, rfl, rfl, hr⟩
+            · rintro ⟨_, _, _, _, rfl, rfl, rfl, rfl, rfl, _⟩
+              rfl
+          · simp only [hr, not_false_eq_true, if_true, reduceCtorEq, false_iff, not_exists, not_and]
+            rintro _ _ _ _ rfl rfl rfl rfl rfl
+            exact hr
+
+/-! ## Addresses, identities and the two database calls -/
+
+theorem toNat_inj {a b : Ip4} (h : a.toNat = b.toNat) : a = b := by
+  obtain ⟨a0, a1, a2, a3⟩ := a
+  obtain ⟨b0, b1, b2, b3⟩ := b
+  simp only [Ip4.toNat] at h
+  have := a0.toNat_lt; have := a1.toNat_lt; have := a2.toNat_lt; have := a3.toNat_lt
+  have := b0.toNat_lt; have := b1.toNat_lt; have := b2.toNat_lt; have := b3.toNat_lt
+  have e0 : a0.toNat = b0.toNat := by omega
+  have e1 : a1.toNat = b1.toNat := by omega
+  have e2 : a2.toNat = b2.toNat := by omega
+  have e3 : a3.toNat = b3.toNat := by omega
+  rw [UInt8.toNat_inj.1 e0, UInt8.toNat_inj.1 e1, UInt8.toNat_inj.1 e2, UInt8.toNat_inj.1 e3]
+
+theorem sduid_inj {a b : Bytes} (h : sduid a = sduid b) : a = b := List.append_cancel_left h
+
+section
+variable {σ : Type}
+
+theorem toUip_some_ok {db : IPDB σ} {i : Ip4} (h1 : db.netFrom ≤ i.toNat) (h2 : i.toNat ≤ db.netTo) :
+    db.toUip (some i) = .ok i.toNat := by
+  rw [IPDB.toUip, if_neg (by omega)]
+
+theorem toUip_some_err {db : IPDB σ} {i : Ip4} (h : i.toNat < db.netFrom ∨ i.toNat > db.netTo) :
+    db.toUip (some i) = .error .notInRange := by
+  rw [IPDB.toUip, if_pos h]
+
+theorem addPermanent_in {S : Store σ} {db : IPDB σ} {t : Int} {i : Ip4} {d : Duid}
+    (h1 : db.netFrom ≤ i.toNat) (h2 : i.toNat ≤ db.netTo) :
+    db.addPermanent S t (some i) d =
+      ({ db with s := (S.inject db.s t i.toNat d 0 true).1 },
+        if (S.inject db.s t i.toNat d 0 true).2 = .ok then .ok () else .error (.store (S.inject db.s t i.toNat d 0 true).2)) := by
+  rw [IPDB.addPermanent, toUip_some_ok h1 h2]
+
+theorem addPermanent_out {S : Store σ} {db : IPDB σ} {t : Int} {i : Ip4} {d : Duid}
+    (h : i.toNat < db.netFrom ∨ i.toNat > db.netTo) :
+    db.addPermanent S t (some i) d = (db, .error .notInRange) := by
+  rw [IPDB.addPermanent, toUip_some_err h]
+end
+
+section
+variable {σ : Type}
+
+theorem addPermanent_ok_iff (S : Store σ) (db db' : IPDB σ) (t : Int) (i : Ip4) (d : Duid) (u : Unit) :
+    db.addPermanent S t (some i) d = (db', .ok u) ↔
+      db.netFrom ≤ i.toNat ∧ i.toNat ≤ db.netTo ∧ (S.inject db.s t i.toNat d 0 true).2 = .ok ∧
+        db' = { db with s := (S.inject db.s t i.toNat d 0 true).1 } := by
+  by_cases h : i.toNat < db.netFrom ∨ i.toNat > db.netTo
+  · rw [addPermanent_out h]
+    simp only [Prod.mk.injEq, reduceCtorEq, and_false, false_iff, not_and]
+    intro h1 h2; omega
+  · have h1 : db.netFrom ≤ i.toNat := by omega
+    have h2 : i.toNat ≤ db.netTo := by omega
+    rw [addPermanent_in h1 h2]
+    by_cases hi : (S.inject db.s t i.toNat d 0 true).2 = .ok
+    · simp only [hi, if_true, Prod.mk.injEq, and_true, h1, h2, true_and]
+      exact eq_comm
+    · simp only [hi, if_false, Prod.mk.injEq, reduceCtorEq, and_false, false_and]
+
+/-- The four range fields. -/
+def ranges (db : IPDB σ) : Nat × Nat × Nat × Nat := (db.netFrom, db.netTo, db.dynFrom, db.dynTo)
+
+theorem addPermanent_ranges (S : Store σ) (db : IPDB σ) (t : Int) (ip : Option Ip4) (d : Duid) :
+    ranges (db.addPermanent S t ip d).1 = ranges db := by
+  rw [IPDB.addPermanent]
+  cases db.toUip ip <;> rfl
+
+/- `setDynamicRange` is unfolded for *variable* arguments only: the kernel must never be asked to
+evaluate `toUip db (some a)` (the comparison `a.toNat < db.netFrom` is not evaluable on open terms). -/
+theorem sdr_err1 {db : IPDB σ} {oa ob : Option Ip4} {x : DbErr} (h : db.toUip oa = .error x) :
+    db.setDynamicRange oa ob = (db, .error x) := by
+  rw [IPDB.setDynamicRange, h]
+
+theorem sdr_err2 {db : IPDB σ} {oa ob : Option Ip4} {bb : Nat} {x : DbErr} (h1 : db.toUip oa = .ok bb)
+    (h2 : db.toUip ob = .error x) : db.setDynamicRange oa ob = (db, .error x) := by
+  rw [IPDB.setDynamicRange, h1]; simp only; rw [h2]
+
+theorem sdr_ok {db : IPDB σ} {oa ob : Option Ip4} {bb ee : Nat} (h1 : db.toUip oa = .ok bb)
+    (h2 : db.toUip ob = .ok ee) :
+    db.setDynamicRange oa ob =
+      if bb > ee then (db, .error .badRange) else ({ db with dynFrom := bb, dynTo := ee }, .ok ()) := by
+  rw [IPDB.setDynamicRange, h1]; simp only; rw [h2]
+
+theorem setDynamicRange_ok_iff (db db' : IPDB σ) (a b : Ip4) (u : Unit) :
+    db.setDynamicRange (some a) (some b) = (db', .ok u) ↔
+      db.netFrom ≤ a.toNat ∧ a.toNat ≤ b.toNat ∧ b.toNat ≤ db.netTo ∧
+        db' = { db with dynFrom := a.toNat, dynTo := b.toNat } := by
+  by_cases ha : a.toNat < db.netFrom ∨ a.toNat > db.netTo
+  · rw [sdr_err1 (toUip_some_err ha)]
+    simp only [Prod.mk.injEq, reduceCtorEq, and_false, false_iff, not_and]
+    intro h1 h2 h3; omega
+  · have ha' := toUip_some_ok (db := db) (i := a) (by omega) (by omega)
+    by_cases hb : b.toNat < db.netFrom ∨ b.toNat > db.netTo
+    · rw [sdr_err2 ha' (toUip_some_err hb)]
+      simp only [Prod.mk.injEq, reduceCtorEq, and_false, false_iff, not_and]
+      intro h1 h2 h3; omega
+    · rw [sdr_ok ha' (toUip_some_ok (by omega) (by omega))]
+      by_cases hab : a.toNat > b.toNat
+      · rw [if_pos hab]
+        simp only [Prod.mk.injEq, reduceCtorEq, and_false, false_iff, not_and]
+        intro h1 h2; omega
+      · rw [if_neg hab]
+        simp only [Prod.mk.injEq, and_true]
+        constructor
+        · intro h; exact ⟨by omega, by omega, by omega, h.symm⟩
+        · intro h; exact h.2.2.2.symm
+
+end
+
+/-! ### Over the reference table: a start-up table holds permanent bindings only -/
+
+def PermOnly (T : Table) : Prop := ∀ b ∈ T, b.perm = true
+
+theorem perm_live {b : Binding} (h : b.perm = true) (t : Int) : b.live t = true := by
+  simp [Binding.live, h]
+
+theorem liveIp_none_iff {T : Table} (hp : PermOnly T) (t : Int) (a : Nat) :
+    T.liveIp t a = none ↔ ∀ b ∈ T, b.ip ≠ a :=
+  ⟨fun h b hb => liveIp_none h b hb (perm_live (hp b hb) t), fun h => liveIp_none_of fun b hb _ => h b hb⟩
+
+theorem liveDuid_none_iff {T : Table} (hp : PermOnly T) (t : Int) (d : Duid) :
+    T.liveDuid t d = none ↔ ∀ b ∈ T, b.duid ≠ d :=
+  ⟨fun h b hb => liveDuid_none h b hb (perm_live (hp b hb) t), fun h => liveDuid_none_of fun b hb _ => h b hb⟩
+
+theorem filter_live_perm {T : Table} (hp : PermOnly T) (t : Int) : T.filter (fun b => b.live t) = T :=
+  List.filter_eq_self.2 fun b hb => perm_live (hp b hb) t
+
+/-- `AddPermanentClient` on a start-up table: the address is managed, and neither it nor the
+identity occurs in the table. -/
+theorem addPermanent_table_ok_iff (db db' : IPDB Table) (t : Int) (i : Ip4) (d : Duid) (u : Unit) (hp : PermOnly db.s) :
+    db.addPermanent tableStore t (some i) d = (db', .ok u) ↔
+      db.netFrom ≤ i.toNat ∧ i.toNat ≤ db.netTo ∧ (∀ b ∈ db.s, b.ip ≠ i.toNat) ∧ (∀ b ∈ db.s, b.duid ≠ d) ∧
+        db' = { db with s := ⟨i.toNat, d, 0, true⟩ :: db.s } := by
+  rw [addPermanent_ok_iff]
+  show _ ∧ _ ∧ (db.s.inject t i.toNat d 0 true).2 = .ok ∧ db' = { db with s := (db.s.inject t i.toNat d 0 true).1 } ↔ _
+  rw [inject_ok_iff, liveIp_none_iff hp, liveDuid_none_iff hp]
+  constructor
+  · rintro ⟨h1, h2, ⟨h3, h4⟩, h5⟩
+    refine ⟨h1, h2, h3, h4, ?_⟩
+    rw [h5, inject_ok_eq ((liveIp_none_iff hp t _).2 h3) ((liveDuid_none_iff hp t _).2 h4), filter_live_perm hp]
+  · rintro ⟨h1, h2, h3, h4, h5⟩
+    refine ⟨h1, h2, ⟨h3, h4⟩, ?_⟩
+    rw [h5, inject_ok_eq ((liveIp_none_iff hp t _).2 h3) ((liveDuid_none_iff hp t _).2 h4), filter_live_perm hp]
+
+/-! ## The client entries and the start-up table -/
+
+/-- The override-map entry a client produces: hardware address and merged options. -/
+def entryOf (lo : LOpts) (c : RawClient) : Option (Bytes × LOpts) :=
+  match c.mac, setClientOverrides lo c with
+  | some m, .ok oo => some (m, oo)
+  | _, _ => none
+
+theorem entryOf_eq_some_iff (lo : LOpts) (c : RawClient) (e : Bytes × LOpts) :
+    entryOf lo c = some e ↔ c.mac = some e.1 ∧ setClientOverrides lo c = .ok e.2 := by
+  obtain ⟨m, oo⟩ := e
+  unfold entryOf
+  cases c.mac <;> cases setClientOverrides lo c <;> simp
+
+def entries (lo : LOpts) (cs : List RawClient) : List (Bytes × LOpts) := cs.filterMap (entryOf lo)
+
+theorem entries_snoc_some {lo : LOpts} {cs : List RawClient} {c : RawClient} {e : Bytes × LOpts}
+    (h : entryOf lo c = some e) : entries lo (cs ++ [c]) = entries lo cs ++ [e] := by
+  simp [entries, List.filterMap_append, h]
+
+theorem mem_entries {lo : LOpts} {cs : List RawClient} {e : Bytes × LOpts} :
+    e ∈ entries lo cs ↔ ∃ c ∈ cs, entryOf lo c = some e := by
+  simp [entries, List.mem_filterMap]
+
+/-- The permanent binding an entry with a static address produces. -/
+def bindOf (e : Bytes × LOpts) : Option Binding := e.2.ip.map fun ip => ⟨ip.toNat, sduid e.1, 0, true⟩
+
+/-- The table after the entries `es` have been registered in order. -/
+def tbl (es : List (Bytes × LOpts)) : Table := (es.filterMap bindOf).reverse
+
+theorem mem_tbl {es : List (Bytes × LOpts)} {b : Binding} :
+    b ∈ tbl es ↔ ∃ e ∈ es, ∃ ip, e.2.ip = some ip ∧ b = ⟨ip.toNat, sduid e.1, 0, true⟩ := by
+  simp only [tbl, List.mem_reverse, List.mem_filterMap, bindOf, Option.map_eq_some_iff]
+  constructor
+  · rintro ⟨e, he, ip, h1, h2⟩; exact ⟨e, he, ip, h1, h2.symm⟩
+  · rintro ⟨e, he, ip, h1, h2⟩; exact ⟨e, he, ip, h1, h2.symm⟩
+
+theorem tbl_permOnly (es : List (Bytes × LOpts)) : PermOnly (tbl es) := by
+  intro b hb
+  obtain ⟨e, _, ip, _, rfl⟩ := mem_tbl.1 hb
+  rfl
+
+theorem tbl_nil : tbl [] = [] := rfl
+
+theorem tbl_snoc_none {es : List (Bytes × LOpts)} {e : Bytes × LOpts} (h : e.2.ip = none) : tbl (es ++ [e]) = tbl es := by
+  simp [tbl, List.filterMap_append, bindOf, h]
+
+theorem tbl_snoc_some {es : List (Bytes × LOpts)} {e : Bytes × LOpts} {ip : Ip4} (h : e.2.ip = some ip) :
+    tbl (es ++ [e]) = ⟨ip.toNat, sduid e.1, 0, true⟩ :: tbl es := by
+  simp [tbl, List.filterMap_append, bindOf, h]
+
+/-- What the fold checks, on the list of entries: distinct hardware addresses, distinct static
+addresses, static addresses inside the managed range. -/
+structure GoodE (nf nt : Nat) (es : List (Bytes × LOpts)) : Prop where
+  macs : es.Pairwise fun e₁ e₂ => e₁.1 ≠ e₂.1
+  ips : es.Pairwise fun e₁ e₂ => ∀ ip, e₁.2.ip = some ip → e₂.2.ip ≠ some ip
+  inside : ∀ e ∈ es, ∀ ip, e.2.ip = some ip → nf ≤ ip.toNat ∧ ip.toNat ≤ nt
+
+theorem goodE_nil (nf nt : Nat) : GoodE nf nt [] := ⟨List.Pairwise.nil, List.Pairwise.nil, by simp⟩
+
+theorem goodE_snoc (nf nt : Nat) (es : List (Bytes × LOpts)) (e : Bytes × LOpts) :
+    GoodE nf nt (es ++ [e]) ↔ GoodE nf nt es ∧ (∀ a ∈ es, a.1 ≠ e.1) ∧
+      (∀ a ∈ es, ∀ ip, a.2.ip = some ip → e.2.ip ≠ some ip) ∧
+      (∀ ip, e.2.ip = some ip → nf ≤ ip.toNat ∧ ip.toNat ≤ nt) := by
+  constructor
+  · rintro ⟨h1, h2, h3⟩
+    rw [List.pairwise_append] at h1 h2
+    refine ⟨⟨h1.1, h2.1, fun a ha => h3 a (by simp [ha])⟩, fun a ha => h1.2.2 a ha e (by simp),
+      fun a ha => h2.2.2 a ha e (by simp), h3 e (by simp)⟩
+  · rintro ⟨⟨h1, h2, h3⟩, h4, h5, h6⟩
+    refine ⟨?_, ?_, ?_⟩
+    · rw [List.pairwise_append]
+      refine ⟨h1, List.pairwise_singleton _ _, ?_⟩
+      intro a ha b hb; rw [List.mem_singleton] at hb; subst hb; exact h4 a ha
+    · rw [List.pairwise_append]
+      refine ⟨h2, List.pairwise_singleton _ _, ?_⟩
+      intro a ha b hb; rw [List.mem_singleton] at hb; subst hb; exact h5 a ha
+    · intro a ha
+      rw [List.mem_append, List.mem_singleton] at ha
+      rcases ha with ha | rfl
+      · exact h3 a ha
+      · exact h6
+
+theorem snoc_induction {α : Type} {P : List α → Prop} (nil : P []) (snoc : ∀ l a, P l → P (l ++ [a])) : ∀ l, P l := by
+  intro l
+  have : ∀ l : List α, P l.reverse := by
+    intro l
+    induction l with
+    | nil => exact nil
+    | cons a l ih => rw [List.reverse_cons]; exact snoc _ _ ih
+  have h := this l.reverse
+  rwa [List.reverse_reverse] at h
+
+/-- Normal form of the fold over the clients, on the reference table starting empty. -/
+theorem fold_table_iff (lo : LOpts) (t : Int) (db0 : IPDB Table) (h0 : db0.s = []) :
+    ∀ (cs : List RawClient) (db' : IPDB Table) (ovs' : List (Bytes × LOpts)),
+      cs.foldl (stepC (IPDB.addPermanent tableStore) lo t) (.ok (db0, [])) = .ok (db', ovs') ↔
+        (∀ c ∈ cs, (entryOf lo c).isSome) ∧ GoodE db0.netFrom db0.netTo (entries lo cs) ∧
+          ovs' = entries lo cs ∧ db' = { db0 with s := tbl (entries lo cs) } := by
+  intro cs
+  induction cs using snoc_induction with
+  | nil =>
+    intro db' ovs'
+    simp only [List.foldl_nil, Except.ok.injEq, Prod.mk.injEq, List.not_mem_nil, false_imp_iff, implies_true,
+      true_and, entries, List.filterMap_nil, goodE_nil, tbl_nil]
+    constructor
+    · rintro ⟨rfl, rfl⟩; exact ⟨rfl, by cases db0; cases h0; rfl⟩
+    · rintro ⟨rfl, rfl⟩; exact ⟨by cases db0; cases h0; rfl, rfl⟩
+  | snoc cs c ih =>
+    intro db' ovs'
+    rw [foldl_stepC_snoc]
+    constructor
+    · intro h
+      cases hf : cs.foldl (stepC (IPDB.addPermanent tableStore) lo t) (.ok (db0, [])) with
+      | error e => rw [hf, stepC_error] at h; cases h
+      | ok v =>
+        obtain ⟨db1, ovs1⟩ := v
+        rw [hf] at h
+        obtain ⟨hall, hgood, rfl, rfl⟩ := (ih db1 ovs1).1 hf
+        obtain ⟨mac, oo, hm, hs, hadd, hany, rfl⟩ := (stepC_ok_iff _ lo t _ _ _ _ c).1 h
+        have he : entryOf lo c = some (mac, oo) := (entryOf_eq_some_iff lo c (mac, oo)).2 ⟨hm, hs⟩
+        have hany' : ∀ a ∈ entries lo cs, a.1 ≠ mac := by
+          intro a ha heq
+          rw [List.any_eq_false] at hany
+          exact hany a ha (by simpa using heq)
+        rw [entries_snoc_some he, goodE_snoc]
+        refine ⟨?_, ?_, rfl, ?_⟩
+        · intro c' hc'
+          rw [List.mem_append, List.mem_singleton] at hc'
+          rcases hc' with hc' | rfl
+          · exact hall c' hc'
+          · rw [he]; rfl
+        · refine ⟨hgood, hany', ?_, ?_⟩
+          · intro a ha ip hip hoo
+            rcases hadd with ⟨hnone, _⟩ | ⟨ip', u, hsome, hap⟩
+            · simp only at hoo; rw [hnone] at hoo; cases hoo
+            · simp only at hoo hsome
+              rw [hoo] at hsome; cases hsome
+              have := ((addPermanent_table_ok_iff _ _ t ip _ u (tbl_permOnly _)).1 hap).2.2.1
+              exact this ⟨ip.toNat, sduid a.1, 0, true⟩ (mem_tbl.2 ⟨a, ha, ip, hip, rfl⟩) rfl
+          · intro ip hip
+            rcases hadd with ⟨hnone, _⟩ | ⟨ip', u, hsome, hap⟩
+            · simp only at hip; rw [hnone] at hip; cases hip
+            · simp only at hip hsome
+              rw [hip] at hsome; cases hsome
+              have := (addPermanent_table_ok_iff _ _ t ip _ u (tbl_permOnly _)).1 hap
+              exact ⟨this.1, this.2.1⟩
+        · rcases hadd with ⟨hnone, rfl⟩ | ⟨ip, u, hsome, hap⟩
+          · rw [tbl_snoc_none (e := (mac, oo)) hnone]
+          · rw [tbl_snoc_some (e := (mac, oo)) hsome]
+            exact ((addPermanent_table_ok_iff _ _ t ip _ u (tbl_permOnly _)).1 hap).2.2.2.2
+    · rintro ⟨hall, hgood, rfl, rfl⟩
+      have hc : (entryOf lo c).isSome := hall c (by simp)
+      obtain ⟨⟨mac, oo⟩, he⟩ := Option.isSome_iff_exists.1 hc
+      obtain ⟨hm, hs⟩ := (entryOf_eq_some_iff lo c (mac, oo)).1 he
+      rw [entries_snoc_some he, goodE_snoc] at hgood
+      obtain ⟨hg, hmac, hip, hin⟩ := hgood
+      rw [(ih _ _).2 ⟨fun c' hc' => hall c' (by simp [hc']), hg, rfl, rfl⟩]
+      rw [entries_snoc_some he]
+      refine (stepC_ok_iff _ lo t _ _ _ _ c).2 ⟨mac, oo, hm, hs, ?_, ?_, rfl⟩
+      · cases hoo : oo.ip with
+        | none => exact Or.inl ⟨rfl, by rw [tbl_snoc_none (e := (mac, oo)) hoo]⟩
+        | some ip =>
+          refine Or.inr ⟨ip, (), rfl, ?_⟩
+          refine (addPermanent_table_ok_iff _ _ t ip _ () (tbl_permOnly _)).2 ⟨(hin ip hoo).1, (hin ip hoo).2, ?_, ?_, ?_⟩
+          · intro b hb hbip
+            obtain ⟨a, ha, ipa, hipa, rfl⟩ := mem_tbl.1 hb
+            simp only at hbip
+            have := toNat_inj hbip
+            subst this
+            exact hip a ha ipa hipa hoo
+          · intro b hb hbd
+            obtain ⟨a, ha, ipa, hipa, rfl⟩ := mem_tbl.1 hb
+            simp only at hbd
+            exact hmac a ha (sduid_inj hbd)
+          · rw [tbl_snoc_some (e := (mac, oo)) hoo]
+      · rw [List.any_eq_false]
+        intro a ha
+        simpa using hmac a ha
+
+/-! ## The start-up over the reference table, in closed form -/
+
+theorem startDb_s {σ : Type} (r : RawCfg) (db0 : IPDB σ) : (startDb r db0).s = db0.s := by
+  unfold startDb; split <;> rfl
+
+theorem startDb_netFrom {σ : Type} (r : RawCfg) (db0 : IPDB σ) : (startDb r db0).netFrom = db0.netFrom := by
+  unfold startDb; split <;> rfl
+
+theorem startDb_netTo {σ : Type} (r : RawCfg) (db0 : IPDB σ) : (startDb r db0).netTo = db0.netTo := by
+  unfold startDb; split <;> rfl
+
+theorem dynOK_iff {σ : Type} (db db0 : IPDB σ) (d : RawDyn) :
+    DynOK IPDB.setDynamicRange db d db0 ↔
+      (d = .absent ∧ db0 = db) ∨ ∃ a b, d = .range a b ∧ db.netFrom ≤ a.toNat ∧ a.toNat ≤ b.toNat ∧
+        b.toNat ≤ db.netTo ∧ db0 = { db with dynFrom := a.toNat, dynTo := b.toNat } := by
+  unfold DynOK
+  constructor
+  · rintro (h | ⟨a, b, u, hd, h⟩)
+    · exact Or.inl h
+    · exact Or.inr ⟨a, b, hd, (setDynamicRange_ok_iff db db0 a b u).1 h⟩
+  · rintro (h | ⟨a, b, hd, h⟩)
+    · exact Or.inl h
+    · exact Or.inr ⟨a, b, (), hd, (setDynamicRange_ok_iff db db0 a b ()).2 h⟩
+
+theorem dynOK_fields {σ : Type} {db db0 : IPDB σ} {d : RawDyn} (h : DynOK IPDB.setDynamicRange db d db0) :
+    db0.s = db.s ∧ db0.netFrom = db.netFrom ∧ db0.netTo = db.netTo := by
+  rcases (dynOK_iff db db0 d).1 h with ⟨_, rfl⟩ | ⟨a, b, _, _, _, _, rfl⟩
+  · exact ⟨rfl, rfl, rfl⟩
+  · exact ⟨rfl, rfl, rfl⟩
+
+/-- The server's own binding does not collide with a static entry. -/
+def SelfFree (selfIp : Ip4) (selfMac : Bytes) (es : List (Bytes × LOpts)) : Prop :=
+  ∀ e ∈ es, ∀ ip, e.2.ip = some ip → ip ≠ selfIp ∧ e.1 ≠ selfMac
+
+theorem selfFree_iff (selfIp : Ip4) (selfMac : Bytes) (es : List (Bytes × LOpts)) :
+    SelfFree selfIp selfMac es ↔
+      (∀ b ∈ tbl es, b.ip ≠ selfIp.toNat) ∧ (∀ b ∈ tbl es, b.duid ≠ sduid selfMac) := by
+  constructor
+  · intro h
+    constructor
+    · intro b hb hbip
+      obtain ⟨e, he, ip, hip, rfl⟩ := mem_tbl.1 hb
+      exact (h e he ip hip).1 (toNat_inj hbip)
+    · intro b hb hbd
+      obtain ⟨e, he, ip, hip, rfl⟩ := mem_tbl.1 hb
+      exact (h e he ip hip).2 (sduid_inj hbd)
+  · rintro ⟨h1, h2⟩ e he ip hip
+    have hb := mem_tbl.2 ⟨e, he, ip, hip, rfl⟩
+    exact ⟨fun heq => h1 _ hb (by rw [heq]), fun heq => h2 _ hb (by rw [heq])⟩
+
+/-- The started server, in closed form. -/
+def startedOf (r : RawCfg) (selfIp : Ip4) (lo : LOpts) (p : Nat) (db0 : IPDB Table) (es : List (Bytes × LOpts)) :
+    Started Table :=
+  { cfg := mkCfg r selfIp lo p es,
+    db := { startDb r db0 with s := ⟨selfIp.toNat, sduid r.selfMac, 0, true⟩ :: tbl es },
+    merged := es }
+
+theorem start_table_iff (r : RawCfg) (clients : List RawClient) (t : Int) (s : Started Table) :
+    newServer tableStore ([] : Table) r clients t = .ok s ↔
+      ∃ selfIp lo base p db0,
+        r.selfIp = some selfIp ∧ parseConfig r = .ok (lo, base, p) ∧
+        DynOK IPDB.setDynamicRange (IPDB.new ([] : Table) base p) r.dyn db0 ∧
+        (∀ c ∈ clients, (entryOf lo c).isSome) ∧
+        GoodE db0.netFrom db0.netTo (entries lo clients) ∧
+        db0.netFrom ≤ selfIp.toNat ∧ selfIp.toNat ≤ db0.netTo ∧
+        SelfFree selfIp r.selfMac (entries lo clients) ∧
+        s = startedOf r selfIp lo p db0 (entries lo clients) := by
+  rw [newServer_eq, newServerP_ok_iff]
+  constructor
+  · rintro ⟨selfIp, lo, base, p, db0, db1, ovs, db2, u, hs, hp, hd, hf, hap, rfl⟩
+    have hd' := dynOK_fields hd
+    have h0 : (startDb r db0).s = [] := by rw [startDb_s, hd'.1]; rfl
+    obtain ⟨hall, hgood, rfl, rfl⟩ := (fold_table_iff lo t (startDb r db0) h0 clients db1 ovs).1 hf
+    rw [startDb_netFrom, startDb_netTo] at hgood
+    obtain ⟨h1, h2, h3, h4, rfl⟩ := (addPermanent_table_ok_iff _ _ t selfIp _ u (tbl_permOnly _)).1 hap
+    simp only [startDb_netFrom, startDb_netTo] at h1 h2
+    exact ⟨selfIp, lo, base, p, db0, hs, hp, hd, hall, hgood, h1, h2, (selfFree_iff _ _ _).2 ⟨h3, h4⟩, rfl⟩
+  · rintro ⟨selfIp, lo, base, p, db0, hs, hp, hd, hall, hgood, h1, h2, hfree, rfl⟩
+    have hd' := dynOK_fields hd
+    have h0 : (startDb r db0).s = [] := by rw [startDb_s, hd'.1]; rfl
+    refine ⟨selfIp, lo, base, p, db0, _, _, _, (), hs, hp, hd,
+      (fold_table_iff lo t (startDb r db0) h0 clients _ _).2 ⟨hall, ?_, rfl, rfl⟩, ?_, rfl⟩
+    · rw [startDb_netFrom, startDb_netTo]; exact hgood
+    · obtain ⟨h3, h4⟩ := (selfFree_iff _ _ _).1 hfree
+      refine (addPermanent_table_ok_iff _ _ t selfIp _ () (tbl_permOnly _)).2 ⟨?_, ?_, h3, h4, rfl⟩
+      · simp only [startDb_netFrom]; exact h1
+      · simp only [startDb_netTo]; exact h2
+
+/-! ## What is in effect after a successful start -/
+
+theorem representable_iff (o : LOpts) :
+    o.representable = true ↔ o.domain.length ≤ 255 ∧ o.hostname.length ≤ 255 ∧ o.dns.length * 4 ≤ 255 ∧
+      o.ntp.length * 4 ≤ 255 ∧ o.leaseNs / 1000000000 ≤ 4294967295 := by
+  simp only [LOpts.representable, Bool.and_eq_true, decide_eq_true_eq, and_assoc]
+
+/-- What `parseConfig` leaves in the global options. -/
+structure GlobalOf (r : RawCfg) (lo : LOpts) (l : Int) : Prop where
+  lease : r.lease = some l
+  leaseMin : 60000000000 ≤ l
+  router : r.router ≠ .bad
+  dns : ipv4List r.dns = some lo.dns
+  ntp : ipv4List r.ntp = some lo.ntp
+  eq : lo = { domain := r.domain, router := entIp r.router, dns := lo.dns, ntp := lo.ntp, leaseNs := l }
+  repr : lo.representable = true
+
+theorem parseConfig_global {r : RawCfg} {lo : LOpts} {base p : Nat} (h : parseConfig r = .ok (lo, base, p)) :
+    r.network = some (base, p) ∧ ∃ l, GlobalOf r lo l := by
+  obtain ⟨hn, l, ro, dns, ntp, hl, hmin, hro, hdns, hntp, rfl, hrep⟩ := (parseConfig_ok_iff r lo base p).1 h
+  obtain ⟨hro1, rfl⟩ := (entOpt_eq_some_iff _ _).1 hro
+  exact ⟨hn, l, ⟨hl, hmin, hro1, hdns, hntp, rfl, hrep⟩⟩
+
+theorem GlobalOf.ip {r : RawCfg} {lo : LOpts} {l : Int} (g : GlobalOf r lo l) : lo.ip = none := by rw [g.eq]
+theorem GlobalOf.hostname {r : RawCfg} {lo : LOpts} {l : Int} (g : GlobalOf r lo l) : lo.hostname = [] := by rw [g.eq]
+theorem GlobalOf.domain {r : RawCfg} {lo : LOpts} {l : Int} (g : GlobalOf r lo l) : lo.domain = r.domain := by rw [g.eq]
+theorem GlobalOf.router_eq {r : RawCfg} {lo : LOpts} {l : Int} (g : GlobalOf r lo l) : lo.router = entIp r.router := by rw [g.eq]
+theorem GlobalOf.leaseNs {r : RawCfg} {lo : LOpts} {l : Int} (g : GlobalOf r lo l) : lo.leaseNs = l := by rw [g.eq]
+
+theorem new_netFrom {σ : Type} (e : σ) (base p : Nat) : (IPDB.new e base p).netFrom = (fromTo base p).1 := rfl
+theorem new_netTo {σ : Type} (e : σ) (base p : Nat) : (IPDB.new e base p).netTo = (fromTo base p).2 := rfl
+theorem new_dynFrom {σ : Type} (e : σ) (base p : Nat) : (IPDB.new e base p).dynFrom = (fromTo base p).1 := rfl
+theorem new_dynTo {σ : Type} (e : σ) (base p : Nat) : (IPDB.new e base p).dynTo = (fromTo base p).2 := rfl
+
+theorem effective_global (r : RawCfg) (clients : List RawClient) (t : Int) (s : Started Table)
+    (h : newServer tableStore ([] : Table) r clients t = .ok s) :
+    r.selfIp = some s.cfg.selfIp ∧ r.lease = some s.cfg.leaseNs ∧ s.cfg.router = entIp r.router ∧
+    ipv4List r.dns = some s.cfg.dns ∧ ipv4List r.ntp = some s.cfg.ntp ∧ s.cfg.domain = r.domain ∧
+    (∃ base p, r.network = some (base, p) ∧ (s.db.netFrom, s.db.netTo) = fromTo base p ∧ s.cfg.mask = maskOf p) ∧
+    (s.db.dynFrom, s.db.dynTo) = (if r.staticOnly then (0, 0) else match r.dyn with
+        | .range a b => (a.toNat, b.toNat)
+        | _ => (s.db.netFrom, s.db.netTo)) := by
+  obtain ⟨selfIp, lo, base, p, db0, hs, hp, hd, _, _, _, _, _, rfl⟩ := (start_table_iff r clients t s).1 h
+  obtain ⟨hn, l, g⟩ := parseConfig_global hp
+  have hf := dynOK_fields hd
+  refine ⟨hs, ?_, g.router_eq, g.dns, g.ntp, g.domain, ⟨base, p, hn, ?_, rfl⟩, ?_⟩
+  · show r.lease = some lo.leaseNs
+    rw [g.leaseNs]; exact g.lease
+  · show ((startDb r db0).netFrom, (startDb r db0).netTo) = fromTo base p
+    rw [startDb_netFrom, startDb_netTo, hf.2.1, hf.2.2, new_netFrom, new_netTo]
+  · show ((startDb r db0).dynFrom, (startDb r db0).dynTo) = (if r.staticOnly then (0, 0) else match r.dyn with
+        | .range a b => (a.toNat, b.toNat)
+        | _ => ((startDb r db0).netFrom, (startDb r db0).netTo))
+    rw [startDb_netFrom, startDb_netTo]
+    unfold startDb
+    cases r.staticOnly with
+    | true => rfl
+    | false =>
+      simp only [Bool.false_eq_true, if_false]
+      rcases (dynOK_iff _ db0 r.dyn).1 hd with ⟨hdyn, rfl⟩ | ⟨a, b, hdyn, _, _, _, rfl⟩
+      · rw [hdyn]; rfl
+      · rw [hdyn]
+
+theorem find?_mkOv {es : List (Bytes × LOpts)} (hp : es.Pairwise fun e₁ e₂ => e₁.1 ≠ e₂.1) {e : Bytes × LOpts}
+    (he : e ∈ es) : (es.map mkOv).find? (·.mac = e.1) = some (mkOv e) := by
+  induction es with
+  | nil => cases he
+  | cons x xs ih =>
+    rw [List.pairwise_cons] at hp
+    rw [List.map_cons, List.find?_cons]
+    have hx : (mkOv x).mac = x.1 := by obtain ⟨m, o⟩ := x; rfl
+    rcases List.mem_cons.1 he with rfl | he'
+    · simp [hx]
+    · have : ¬ x.1 = e.1 := hp.1 e he'
+      simp only [hx, this, decide_false]
+      exact ih hp.2 he'
+
+theorem entIp_eq_some {e : Ent} {ip : Ip4} : entIp e = some ip ↔ e = .ok ip := by
+  cases e <;> simp [entIp]
+
+/-- The merged options of an entry, read off the raw client. -/
+theorem entry_fields {r : RawCfg} {lo : LOpts} {l : Int} (g : GlobalOf r lo l) {c : RawClient} {oo : LOpts}
+    (h : setClientOverrides lo c = .ok oo) :
+    oo.ip = entIp c.ip ∧ oo.router = (match entIp c.router with | some x => some x | none => lo.router) ∧
+    (∃ d, ipv4List c.dns = some d ∧ oo.dns = (if d.isEmpty then lo.dns else d)) ∧
+    (∃ n, ipv4List c.ntp = some n ∧ oo.ntp = (if n.isEmpty then lo.ntp else n)) ∧
+    oo.hostname = c.hostname ∧ oo.domain = lo.domain ∧ oo.leaseNs = lo.leaseNs := by
+  obtain ⟨ip, ro, dns, ntp, h1, h2, h3, h4, rfl, _⟩ := (setClientOverrides_ok_iff lo c oo).1 h
+  obtain ⟨_, rfl⟩ := (entOpt_eq_some_iff _ _).1 h1
+  obtain ⟨_, rfl⟩ := (entOpt_eq_some_iff _ _).1 h2
+  refine ⟨?_, rfl, ⟨dns, h3, rfl⟩, ⟨ntp, h4, rfl⟩, ?_, rfl, rfl⟩
+  · show (match entIp c.ip with | some i => some i | none => lo.ip) = entIp c.ip
+    rw [g.ip]; cases entIp c.ip <;> rfl
+  · show (if c.hostname.isEmpty then lo.hostname else c.hostname) = c.hostname
+    rw [g.hostname]
+    cases hh : c.hostname with
+    | nil => rfl
+    | cons x xs => rfl
+
+theorem effective_client (r : RawCfg) (clients : List RawClient) (t : Int) (s : Started Table)
+    (h : newServer tableStore ([] : Table) r clients t = .ok s) (c : RawClient) (hc : c ∈ clients) :
+    ∃ mac o, c.mac = some mac ∧ s.cfg.override? mac = some o ∧ o.ip = entIp c.ip ∧
+      o.router = (match entIp c.router with | some x => some x | none => s.cfg.router) ∧
+      (∃ d, ipv4List c.dns = some d ∧ o.dns = (if d.isEmpty then s.cfg.dns else d)) ∧
+      (∃ n, ipv4List c.ntp = some n ∧ o.ntp = (if n.isEmpty then s.cfg.ntp else n)) ∧
+      o.hostname = c.hostname ∧
+      (∀ ip, c.ip = .ok ip → ∃ b ∈ s.db.s, b.ip = ip.toNat ∧ b.duid = sduid mac ∧ b.perm = true) := by
+  obtain ⟨selfIp, lo, base, p, db0, hs, hp, hd, hall, hgood, _, _, _, rfl⟩ := (start_table_iff r clients t s).1 h
+  obtain ⟨hn, l, g⟩ := parseConfig_global hp
+  obtain ⟨⟨mac, oo⟩, he⟩ := Option.isSome_iff_exists.1 (hall c hc)
+  obtain ⟨hm, hso⟩ := (entryOf_eq_some_iff lo c (mac, oo)).1 he
+  have hmem : (mac, oo) ∈ entries lo clients := mem_entries.2 ⟨c, hc, he⟩
+  obtain ⟨f1, f2, f3, f4, f5, _, _⟩ := entry_fields g hso
+  refine ⟨mac, mkOv (mac, oo), hm, find?_mkOv hgood.macs hmem, f1, f2, f3, f4, f5, ?_⟩
+  intro ip hip
+  refine ⟨⟨ip.toNat, sduid mac, 0, true⟩, ?_, rfl, rfl, rfl⟩
+  show _ ∈ _ :: tbl (entries lo clients)
+  refine List.mem_cons_of_mem _ (mem_tbl.2 ⟨(mac, oo), hmem, ip, ?_, rfl⟩)
+  show oo.ip = some ip
+  rw [f1]; exact entIp_eq_some.2 hip
+
+/-! ## The server starts exactly on valid configurations -/
+
+theorem pairwise_filterMap_of_isSome {α β : Type} {f : α → Option β} {R : β → β → Prop} {S : α → α → Prop}
+    (hRS : ∀ a₁ a₂ b₁ b₂, f a₁ = some b₁ → f a₂ = some b₂ → (R b₁ b₂ ↔ S a₁ a₂)) :
+    ∀ (l : List α), (∀ a ∈ l, (f a).isSome) → ((l.filterMap f).Pairwise R ↔ l.Pairwise S) := by
+  intro l
+  induction l with
+  | nil => intro _; simp
+  | cons a l ih =>
+    intro hall
+    obtain ⟨b, hb⟩ := Option.isSome_iff_exists.1 (hall a (by simp))
+    have hall' : ∀ a ∈ l, (f a).isSome := fun x hx => hall x (by simp [hx])
+    rw [List.filterMap_cons_some hb, List.pairwise_cons, List.pairwise_cons, ih hall']
+    refine and_congr ?_ Iff.rfl
+    constructor
+    · intro h a' ha'
+      obtain ⟨b', hb'⟩ := Option.isSome_iff_exists.1 (hall' a' ha')
+      exact (hRS a a' b b' hb hb').1 (h b' (List.mem_filterMap.2 ⟨a', ha', hb'⟩))
+    · intro h b' hb'
+      obtain ⟨a', ha', hfa'⟩ := List.mem_filterMap.1 hb'
+      exact (hRS a a' b b' hb hfa').2 (h a' ha')
+
+theorem entry_ip {r : RawCfg} {lo : LOpts} {l : Int} (g : GlobalOf r lo l) {c : RawClient} {e : Bytes × LOpts}
+    (h : entryOf lo c = some e) : c.mac = some e.1 ∧ e.2.ip = entIp c.ip := by
+  obtain ⟨hm, hs⟩ := (entryOf_eq_some_iff lo c e).1 h
+  exact ⟨hm, (entry_fields g hs).1⟩
+
+theorem ite_isEmpty_length_le {α : Type} (x y : List α) (n : Nat) (hy : y.length ≤ n) (hx : x.length ≤ n) :
+    (if x.isEmpty then y else x).length ≤ n := by
+  cases x <;> simpa
+
+/-- The per-client checks of `SetClientOverrides`, given a parsed global section. -/
+theorem client_ok_iff {r : RawCfg} {lo : LOpts} {l : Int} (g : GlobalOf r lo l) (c : RawClient) :
+    (∃ oo, setClientOverrides lo c = .ok oo) ↔
+      entValid c.ip ∧ entValid c.router ∧ listValid c.dns ∧ listLen c.dns ≤ 63 ∧ listValid c.ntp ∧
+        listLen c.ntp ≤ 63 ∧ c.hostname.length ≤ 255 := by
+  have hrep := (representable_iff lo).1 g.repr
+  constructor
+  · rintro ⟨oo, h⟩
+    obtain ⟨ip, ro, dns, ntp, h1, h2, h3, h4, rfl, h5⟩ := (setClientOverrides_ok_iff lo c oo).1 h
+    obtain ⟨_, hh, hd, hn, _⟩ := (representable_iff _).1 h5
+    simp only [merged] at hh hd hn
+    have l3 := ipv4List_length h3
+    have l4 := ipv4List_length h4
+    refine ⟨((entOpt_eq_some_iff _ _).1 h1).1, ((entOpt_eq_some_iff _ _).1 h2).1,
+      (ipv4List_isSome_iff _).1 ⟨_, h3⟩, ?_, (ipv4List_isSome_iff _).1 ⟨_, h4⟩, ?_, ?_⟩
+    · cases dns with
+      | nil => simp at l3; omega
+      | cons x xs => simp only [List.isEmpty_cons, Bool.false_eq_true, if_false] at hd; omega
+    · cases ntp with
+      | nil => simp at l4; omega
+      | cons x xs => simp only [List.isEmpty_cons, Bool.false_eq_true, if_false] at hn; omega
+    · cases hc : c.hostname with
+      | nil => simp
+      | cons x xs => rw [hc] at hh; simpa using hh
+  · rintro ⟨v1, v2, v3, v4, v5, v6, v7⟩
+    obtain ⟨dns, h3⟩ := (ipv4List_isSome_iff _).2 v3
+    obtain ⟨ntp, h4⟩ := (ipv4List_isSome_iff _).2 v5
+    have l3 := ipv4List_length h3
+    have l4 := ipv4List_length h4
+    refine ⟨_, (setClientOverrides_ok_iff lo c _).2 ⟨entIp c.ip, entIp c.router, dns, ntp,
+      (entOpt_eq_some_iff _ _).2 ⟨v1, rfl⟩, (entOpt_eq_some_iff _ _).2 ⟨v2, rfl⟩, h3, h4, rfl, ?_⟩⟩
+    rw [representable_iff]
+    simp only [merged]
+    refine ⟨hrep.1, ?_, ?_, ?_, hrep.2.2.2.2⟩
+    · exact ite_isEmpty_length_le _ _ _ hrep.2.1 v7
+    · have := ite_isEmpty_length_le dns lo.dns 63 (by omega) (by omega); omega
+    · have := ite_isEmpty_length_le ntp lo.ntp 63 (by omega) (by omega); omega
+
+set_option linter.unusedVariables false in
+theorem starts_iff_valid (r : RawCfg) (clients : List RawClient) (t : Int)
+    (hnet : ∀ base p, r.network = some (base, p) → base < 4294967296 ∧ p ≤ 32) :
+    (∃ s, newServer tableStore ([] : Table) r clients t = .ok s) ↔ Valid r clients := by
+  constructor
+  · rintro ⟨s, h⟩
+    obtain ⟨selfIp, lo, base, p, db0, hs, hp, hd, hall, hgood, hin1, hin2, hfree, _⟩ :=
+      (start_table_iff r clients t s).1 h
+    obtain ⟨hn, l, g⟩ := parseConfig_global hp
+    have hf := dynOK_fields hd
+    have hnf : db0.netFrom = (fromTo base p).1 := hf.2.1
+    have hnt : db0.netTo = (fromTo base p).2 := hf.2.2
+    have hrep := (representable_iff lo).1 g.repr
+    have hent : ∀ c ∈ clients, ∃ e, entryOf lo c = some e ∧ e ∈ entries lo clients ∧ c.mac = some e.1 ∧
+        e.2.ip = entIp c.ip := by
+      intro c hc
+      obtain ⟨e, he⟩ := Option.isSome_iff_exists.1 (hall c hc)
+      exact ⟨e, he, mem_entries.2 ⟨c, hc, he⟩, entry_ip g he⟩
+    refine ⟨?_, ?_, ?_, g.router, ?_, ?_, ?_, ?_, ?_, ?_, ?_, ?_, ?_, ?_⟩
+    · rw [hs]; simp
+    · rw [hn]; simp
+    · refine ⟨l, g.lease, g.leaseMin, ?_⟩
+      have := hrep.2.2.2.2; rwa [g.leaseNs] at this
+    · refine ⟨(ipv4List_isSome_iff _).1 ⟨_, g.dns⟩, ?_⟩
+      have := ipv4List_length g.dns; have := hrep.2.2.1; omega
+    · refine ⟨(ipv4List_isSome_iff _).1 ⟨_, g.ntp⟩, ?_⟩
+      have := ipv4List_length g.ntp; have := hrep.2.2.2.1; omega
+    · have := hrep.1; rwa [g.domain] at this
+    · rcases (dynOK_iff _ db0 r.dyn).1 hd with ⟨hdyn, _⟩ | ⟨a, b, hdyn, h1, h2, h3, _⟩
+      · exact Or.inl hdyn
+      · exact Or.inr ⟨a, b, base, p, hdyn, hn, h1, h2, h3⟩
+    · intro c hc
+      obtain ⟨e, he, _, hm, _⟩ := hent c hc
+      obtain ⟨_, hso⟩ := (entryOf_eq_some_iff lo c e).1 he
+      exact ⟨by rw [hm]; simp, (client_ok_iff g c).1 ⟨_, hso⟩⟩
+    · intro c hc ip hip
+      obtain ⟨e, he, hmem, _, heip⟩ := hent c hc
+      have := hgood.inside e hmem ip (by rw [heip]; exact entIp_eq_some.2 hip)
+      exact ⟨base, p, hn, by rw [← hnf]; exact this.1, by rw [← hnt]; exact this.2⟩
+    · refine (pairwise_filterMap_of_isSome ?_ clients hall).1 hgood.macs
+      intro c₁ c₂ e₁ e₂ h1 h2
+      rw [(entry_ip g h1).1, (entry_ip g h2).1]
+      simp
+    · refine (pairwise_filterMap_of_isSome ?_ clients hall).1 hgood.ips
+      intro c₁ c₂ e₁ e₂ h1 h2
+      rw [(entry_ip g h1).2, (entry_ip g h2).2]
+      simp only [ne_eq, entIp_eq_some]
+    · intro s' hs'
+      rw [hs] at hs'; cases hs'
+      exact ⟨base, p, hn, by rw [← hnf]; exact hin1, by rw [← hnt]; exact hin2⟩
+    · intro c hc ip hip
+      obtain ⟨e, he, hmem, hm, heip⟩ := hent c hc
+      have := hfree e hmem ip (by rw [heip]; exact entIp_eq_some.2 hip)
+      refine ⟨?_, ?_⟩
+      · rw [hs]; intro h; cases h; exact this.1 rfl
+      · rw [hm]; intro h; exact this.2 (Option.some.inj h)
+  · intro v
+    obtain ⟨selfIp, hs⟩ := Option.ne_none_iff_exists'.1 v.selfIp
+    obtain ⟨⟨base, p⟩, hn⟩ := Option.ne_none_iff_exists'.1 v.network
+    obtain ⟨l, hl, hmin, hmax⟩ := v.lease
+    obtain ⟨dns, hdns⟩ := (ipv4List_isSome_iff _).2 v.dns.1
+    obtain ⟨ntp, hntp⟩ := (ipv4List_isSome_iff _).2 v.ntp.1
+    have ldns := ipv4List_length hdns
+    have lntp := ipv4List_length hntp
+    have hp : parseConfig r = .ok ({ domain := r.domain, router := entIp r.router, dns := dns, ntp := ntp, leaseNs := l }, base, p) := by
+      refine (parseConfig_ok_iff r _ base p).2 ⟨hn, l, entIp r.router, dns, ntp, hl, hmin,
+        (entOpt_eq_some_iff _ _).2 ⟨v.router, rfl⟩, hdns, hntp, rfl, ?_⟩
+      rw [representable_iff]
+      refine ⟨v.domain, by simp, ?_, ?_, hmax⟩
+      · have := v.dns.2; show dns.length * 4 ≤ 255; omega
+      · have := v.ntp.2; show ntp.length * 4 ≤ 255; omega
+    generalize hlo : ({ domain := r.domain, router := entIp r.router, dns := dns, ntp := ntp, leaseNs := l } : LOpts) = lo at hp
+    obtain ⟨_, l', g⟩ := parseConfig_global hp
+    have hnet' : ∀ base' p', r.network = some (base', p') → base' = base ∧ p' = p := by
+      intro base' p' h; rw [hn] at h; cases h; exact ⟨rfl, rfl⟩
+    obtain ⟨db0, hd⟩ : ∃ db0, DynOK IPDB.setDynamicRange (IPDB.new ([] : Table) base p) r.dyn db0 := by
+      rcases v.dyn with hdyn | ⟨a, b, base', p', hdyn, hn', h1, h2, h3⟩
+      · exact ⟨_, (dynOK_iff _ _ _).2 (Or.inl ⟨hdyn, rfl⟩)⟩
+      · obtain ⟨rfl, rfl⟩ := hnet' _ _ hn'
+        exact ⟨_, (dynOK_iff _ _ _).2 (Or.inr ⟨a, b, hdyn, h1, h2, h3, rfl⟩)⟩
+    have hf := dynOK_fields hd
+    have hnf : db0.netFrom = (fromTo base p).1 := hf.2.1
+    have hnt : db0.netTo = (fromTo base p).2 := hf.2.2
+    have hall : ∀ c ∈ clients, (entryOf lo c).isSome := by
+      intro c hc
+      obtain ⟨hm, hrest⟩ := v.clientFields c hc
+      obtain ⟨mac, hmac⟩ := Option.ne_none_iff_exists'.1 hm
+      obtain ⟨oo, hoo⟩ := (client_ok_iff g c).2 hrest
+      rw [(entryOf_eq_some_iff lo c (mac, oo)).2 ⟨hmac, hoo⟩]; rfl
+    have hent : ∀ e ∈ entries lo clients, ∃ c ∈ clients, c.mac = some e.1 ∧ e.2.ip = entIp c.ip := by
+      intro e he
+      obtain ⟨c, hc, hce⟩ := mem_entries.1 he
+      exact ⟨c, hc, entry_ip g hce⟩
+    refine ⟨startedOf r selfIp lo p db0 (entries lo clients), (start_table_iff r clients t _).2
+      ⟨selfIp, lo, base, p, db0, hs, hp, hd, hall, ⟨?_, ?_, ?_⟩, ?_, ?_, ?_, rfl⟩⟩
+    · refine (pairwise_filterMap_of_isSome ?_ clients hall).2 v.distinctMac
+      intro c₁ c₂ e₁ e₂ h1 h2
+      rw [(entry_ip g h1).1, (entry_ip g h2).1]
+      simp
+    · refine (pairwise_filterMap_of_isSome ?_ clients hall).2 v.distinctIp
+      intro c₁ c₂ e₁ e₂ h1 h2
+      rw [(entry_ip g h1).2, (entry_ip g h2).2]
+      simp only [ne_eq, entIp_eq_some]
+    · intro e he ip hip
+      obtain ⟨c, hc, _, heip⟩ := hent e he
+      obtain ⟨base', p', hn', h1, h2⟩ := v.staticInside c hc ip (entIp_eq_some.1 (by rw [← heip]; exact hip))
+      obtain ⟨rfl, rfl⟩ := hnet' _ _ hn'
+      rw [hnf, hnt]; exact ⟨h1, h2⟩
+    · obtain ⟨base', p', hn', h1, _⟩ := v.selfInside selfIp hs
+      obtain ⟨rfl, rfl⟩ := hnet' _ _ hn'
+      rw [hnf]; exact h1
+    · obtain ⟨base', p', hn', _, h2⟩ := v.selfInside selfIp hs
+      obtain ⟨rfl, rfl⟩ := hnet' _ _ hn'
+      rw [hnt]; exact h2
+    · intro e he ip hip
+      obtain ⟨c, hc, hm, heip⟩ := hent e he
+      obtain ⟨h1, h2⟩ := v.selfFree c hc ip (entIp_eq_some.1 (by rw [← heip]; exact hip))
+      refine ⟨?_, ?_⟩
+      · rintro rfl; exact h1 hs
+      · intro h; exact h2 (by rw [hm, h])
+
+/-! ## The order in which the client entries are visited does not matter -/
+
+theorem goodE_perm {nf nt : Nat} {es₁ es₂ : List (Bytes × LOpts)} (hp : es₁.Perm es₂) (h : GoodE nf nt es₁) :
+    GoodE nf nt es₂ := by
+  refine ⟨?_, ?_, ?_⟩
+  · exact (hp.pairwise_iff (fun {x y} hxy => Ne.symm hxy)).1 h.macs
+  · refine (hp.pairwise_iff ?_).1 h.ips
+    intro x y hxy ip hy hx
+    exact hxy ip hx hy
+  · intro e he; exact h.inside e (hp.mem_iff.2 he)
+
+theorem find?_mkOv_none {es : List (Bytes × LOpts)} {mac : Bytes} (h : ∀ e ∈ es, e.1 ≠ mac) :
+    (es.map mkOv).find? (·.mac = mac) = none := by
+  rw [List.find?_eq_none]
+  intro o ho
+  obtain ⟨e, he, rfl⟩ := List.mem_map.1 ho
+  have hx : (mkOv e).mac = e.1 := by obtain ⟨m, o⟩ := e; rfl
+  simpa [hx] using h e he
+
+theorem override_perm {es₁ es₂ : List (Bytes × LOpts)} (hp : es₁.Perm es₂)
+    (h₁ : es₁.Pairwise fun e₁ e₂ => e₁.1 ≠ e₂.1) (mac : Bytes) :
+    (es₁.map mkOv).find? (·.mac = mac) = (es₂.map mkOv).find? (·.mac = mac) := by
+  have h₂ : es₂.Pairwise fun e₁ e₂ => e₁.1 ≠ e₂.1 := (hp.pairwise_iff (fun {x y} hxy => Ne.symm hxy)).1 h₁
+  by_cases hex : ∃ e ∈ es₁, e.1 = mac
+  · obtain ⟨e, he, rfl⟩ := hex
+    rw [find?_mkOv h₁ he, find?_mkOv h₂ (hp.mem_iff.1 he)]
+  · have hn : ∀ e ∈ es₁, e.1 ≠ mac := fun e he heq => hex ⟨e, he, heq⟩
+    rw [find?_mkOv_none hn, find?_mkOv_none (fun e he => hn e (hp.mem_iff.2 he))]
+
+theorem dhcpOptions_congr (r : RawCfg) (selfIp : Ip4) (lo : LOpts) (p : Nat) (es₁ es₂ : List (Bytes × LOpts)) (mac : Bytes)
+    (h : (mkCfg r selfIp lo p es₁).override? mac = (mkCfg r selfIp lo p es₂).override? mac) :
+    (mkCfg r selfIp lo p es₁).dhcpOptions mac = (mkCfg r selfIp lo p es₂).dhcpOptions mac := by
+  unfold SrvCfg.dhcpOptions
+  rw [h]
+  rfl
+
+set_option linter.unusedVariables false in
+theorem order_independent (r : RawCfg) (c₁ c₂ : List RawClient) (t : Int) (hp : List.Perm c₁ c₂)
+    (hnet : ∀ base p, r.network = some (base, p) → base < 4294967296 ∧ p ≤ 32) :
+    (∀ s₁, newServer tableStore ([] : Table) r c₁ t = .ok s₁ →
+      ∃ s₂, newServer tableStore ([] : Table) r c₂ t = .ok s₂ ∧
+        (∀ mac, s₁.cfg.dhcpOptions mac = s₂.cfg.dhcpOptions mac) ∧ List.Perm s₁.db.s s₂.db.s ∧
+        (s₁.db.netFrom, s₁.db.netTo, s₁.db.dynFrom, s₁.db.dynTo) = (s₂.db.netFrom, s₂.db.netTo, s₂.db.dynFrom, s₂.db.dynTo)) := by
+  intro s₁ h
+  obtain ⟨selfIp, lo, base, p, db0, hs, hpc, hd, hall, hgood, hin1, hin2, hfree, rfl⟩ := (start_table_iff r c₁ t s₁).1 h
+  have hpe : (entries lo c₁).Perm (entries lo c₂) := hp.filterMap _
+  refine ⟨startedOf r selfIp lo p db0 (entries lo c₂), (start_table_iff r c₂ t _).2
+    ⟨selfIp, lo, base, p, db0, hs, hpc, hd, fun c hc => hall c (hp.mem_iff.2 hc), goodE_perm hpe hgood, hin1, hin2,
+      fun e he => hfree e (hpe.mem_iff.2 he), rfl⟩, ?_, ?_, rfl⟩
+  · intro mac
+    exact dhcpOptions_congr r selfIp lo p _ _ mac (override_perm hpe hgood.macs mac)
+  · show List.Perm (_ :: tbl (entries lo c₁)) (_ :: tbl (entries lo c₂))
+    refine List.Perm.cons _ ?_
+    unfold tbl
+    exact (List.reverse_perm _).trans ((hpe.filterMap _).trans (List.reverse_perm _).symm)
+
+/-! ## The concrete store and the reference table agree on whether the server starts -/
+
+section Sim
+variable {σ₁ σ₂ : Type} {Rel : σ₁ → σ₂ → Int → Prop}
+
+/-- Corresponding intermediate results: the same error, or related databases and the same overrides. -/
+def AccRel (Rel : σ₁ → σ₂ → Int → Prop) (t : Int) :
+    Except CfgErr (IPDB σ₁ × List (Bytes × LOpts)) → Except CfgErr (IPDB σ₂ × List (Bytes × LOpts)) → Prop
+  | .error e₁, .error e₂ => e₁ = e₂
+  | .ok (db1, o1), .ok (db2, o2) => o1 = o2 ∧ DbRel Rel db1 db2 t
+  | _, _ => False
+
+/-- Both fail, or both succeed. -/
+def SameOutcome {α β : Type} : Except CfgErr α → Except CfgErr β → Prop
+  | .error e₁, .error e₂ => e₁ = e₂
+  | .ok _, .ok _ => True
+  | _, _ => False
+
+variable (AP₁ : IPDB σ₁ → Int → Option Ip4 → Duid → IPDB σ₁ × Except DbErr Unit)
+variable (AP₂ : IPDB σ₂ → Int → Option Ip4 → Duid → IPDB σ₂ × Except DbErr Unit)
+variable (SD₁ : IPDB σ₁ → Option Ip4 → Option Ip4 → IPDB σ₁ × Except DbErr Unit)
+variable (SD₂ : IPDB σ₂ → Option Ip4 → Option Ip4 → IPDB σ₂ × Except DbErr Unit)
+
+theorem stepC_sim (t : Int)
+    (hAP : ∀ db1 db2 ip d, DbRel Rel db1 db2 t → (AP₁ db1 t ip d).2 = (AP₂ db2 t ip d).2 ∧
+      DbRel Rel (AP₁ db1 t ip d).1 (AP₂ db2 t ip d).1 t)
+    (lo : LOpts) (c : RawClient) (a₁ : Except CfgErr (IPDB σ₁ × List (Bytes × LOpts)))
+    (a₂ : Except CfgErr (IPDB σ₂ × List (Bytes × LOpts))) (h : AccRel Rel t a₁ a₂) :
+    AccRel Rel t (stepC AP₁ lo t a₁ c) (stepC AP₂ lo t a₂ c) := by
+  cases a₁ with
+  | error e₁ =>
+    cases a₂ with
+    | error e₂ => exact h
+    | ok v₂ => exact h.elim
+  | ok v₁ =>
+    cases a₂ with
+    | error e₂ => obtain ⟨db1, o1⟩ := v₁; exact h.elim
+    | ok v₂ =>
+      obtain ⟨db1, o1⟩ := v₁
+      obtain ⟨db2, o2⟩ := v₂
+      obtain ⟨rfl, hR⟩ := h
+      unfold stepC
+      simp only
+      cases c.mac with
+      | none => exact rfl
+      | some mac =>
+        simp only
+        cases setClientOverrides lo c with
+        | error e => exact rfl
+        | ok oo =>
+          simp only
+          have hdup : ∀ (d1 : IPDB σ₁) (d2 : IPDB σ₂), DbRel Rel d1 d2 t →
+              AccRel Rel t (dupCheck d1 o1 mac oo) (dupCheck d2 o1 mac oo) := by
+            intro d1 d2 hd
+            unfold dupCheck
+            cases o1.any (·.1 = mac) with
+            | true => exact rfl
+            | false => exact ⟨rfl, hd⟩
+          cases oo.ip with
+          | none => exact hdup _ _ hR
+          | some ip =>
+            simp only
+            obtain ⟨e, r⟩ := hAP db1 db2 (some ip) (sduid mac) hR
+            revert e r
+            cases AP₁ db1 t (some ip) (sduid mac) with
+            | mk d1 r1 =>
+              cases AP₂ db2 t (some ip) (sduid mac) with
+              | mk d2 r2 =>
+                intro e r
+                simp only at e r
+                subst e
+                cases r1 with
+                | error x => exact rfl
+                | ok u => exact hdup _ _ r
+
+theorem foldl_stepC_sim (t : Int)
+    (hAP : ∀ db1 db2 ip d, DbRel Rel db1 db2 t → (AP₁ db1 t ip d).2 = (AP₂ db2 t ip d).2 ∧
+      DbRel Rel (AP₁ db1 t ip d).1 (AP₂ db2 t ip d).1 t)
+    (lo : LOpts) (cs : List RawClient) : ∀ (a₁ : Except CfgErr (IPDB σ₁ × List (Bytes × LOpts)))
+    (a₂ : Except CfgErr (IPDB σ₂ × List (Bytes × LOpts))), AccRel Rel t a₁ a₂ →
+    AccRel Rel t (cs.foldl (stepC AP₁ lo t) a₁) (cs.foldl (stepC AP₂ lo t) a₂) := by
+  induction cs with
+  | nil => intro a₁ a₂ h; exact h
+  | cons c cs ih =>
+    intro a₁ a₂ h
+    rw [List.foldl_cons, List.foldl_cons]
+    exact ih _ _ (stepC_sim AP₁ AP₂ t hAP lo c a₁ a₂ h)
+
+theorem finish_sim (t : Int)
+    (hAP : ∀ db1 db2 ip d, DbRel Rel db1 db2 t → (AP₁ db1 t ip d).2 = (AP₂ db2 t ip d).2 ∧
+      DbRel Rel (AP₁ db1 t ip d).1 (AP₂ db2 t ip d).1 t)
+    (r : RawCfg) (selfIp : Ip4) (lo : LOpts) (p : Nat) (a₁ : Except CfgErr (IPDB σ₁ × List (Bytes × LOpts)))
+    (a₂ : Except CfgErr (IPDB σ₂ × List (Bytes × LOpts))) (h : AccRel Rel t a₁ a₂) :
+    SameOutcome (finish AP₁ r t selfIp lo p a₁) (finish AP₂ r t selfIp lo p a₂) := by
+  cases a₁ with
+  | error e₁ =>
+    cases a₂ with
+    | error e₂ => exact h
+    | ok v₂ => exact h.elim
+  | ok v₁ =>
+    cases a₂ with
+    | error e₂ => obtain ⟨db1, o1⟩ := v₁; exact h.elim
+    | ok v₂ =>
+      obtain ⟨db1, o1⟩ := v₁
+      obtain ⟨db2, o2⟩ := v₂
+      obtain ⟨rfl, hR⟩ := h
+      unfold finish
+      simp only
+      obtain ⟨e, r⟩ := hAP db1 db2 (some selfIp) (sduid r.selfMac) hR
+      revert e r
+      cases AP₁ db1 t (some selfIp) (sduid r.selfMac) with
+      | mk d1 r1 =>
+        cases AP₂ db2 t (some selfIp) (sduid r.selfMac) with
+        | mk d2 r2 =>
+          intro e _
+          simp only at e
+          subst e
+          cases r1 with
+          | error x => exact rfl
+          | ok u => exact trivial
+
+theorem disableDynamic_rel {db1 : IPDB σ₁} {db2 : IPDB σ₂} {t : Int} (h : DbRel Rel db1 db2 t) :
+    DbRel Rel db1.disableDynamic db2.disableDynamic t :=
+  ⟨h.1, h.2.1, rfl, rfl, h.2.2.2.2⟩
+
+theorem newServerP_sim (t : Int)
+    (hAP : ∀ db1 db2 ip d, DbRel Rel db1 db2 t → (AP₁ db1 t ip d).2 = (AP₂ db2 t ip d).2 ∧
+      DbRel Rel (AP₁ db1 t ip d).1 (AP₂ db2 t ip d).1 t)
+    (hSD : ∀ db1 db2 a b, DbRel Rel db1 db2 t → (SD₁ db1 a b).2 = (SD₂ db2 a b).2 ∧
+      DbRel Rel (SD₁ db1 a b).1 (SD₂ db2 a b).1 t)
+    (e₁ : σ₁) (e₂ : σ₂) (he : Rel e₁ e₂ t) (r : RawCfg) (clients : List RawClient) :
+    SameOutcome (newServerP AP₁ SD₁ e₁ r clients t) (newServerP AP₂ SD₂ e₂ r clients t) := by
+  have tl : ∀ (selfIp : Ip4) (lo : LOpts) (p : Nat) (d1 : IPDB σ₁) (d2 : IPDB σ₂), DbRel Rel d1 d2 t →
+      SameOutcome (tailP AP₁ r clients t selfIp lo p d1) (tailP AP₂ r clients t selfIp lo p d2) := by
+    intro selfIp lo p d1 d2 hd
+    unfold tailP
+    refine finish_sim AP₁ AP₂ t hAP r selfIp lo p _ _ (foldl_stepC_sim AP₁ AP₂ t hAP lo clients _ _ ?_)
+    refine ⟨rfl, ?_⟩
+    cases r.staticOnly with
+    | true => exact disableDynamic_rel hd
+    | false => exact hd
+  have hnew : ∀ base p, DbRel Rel (IPDB.new e₁ base p) (IPDB.new e₂ base p) t :=
+    fun base p => ⟨rfl, rfl, rfl, rfl, he⟩
+  unfold newServerP
+  cases r.selfIp with
+  | none => exact rfl
+  | some selfIp =>
+    simp only
+    cases parseConfig r with
+    | error e => exact rfl
+    | ok x =>
+      obtain ⟨lo, base, p⟩ := x
+      simp only
+      cases r.dyn with
+      | absent => exact tl _ _ _ _ _ (hnew base p)
+      | badFormat => exact rfl
+      | badIp => exact rfl
+      | range a b =>
+        simp only
+        obtain ⟨e, rr⟩ := hSD _ _ (some a) (some b) (hnew base p)
+        revert e rr
+        cases SD₁ (IPDB.new e₁ base p) (some a) (some b) with
+        | mk d1 r1 =>
+          cases SD₂ (IPDB.new e₂ base p) (some a) (some b) with
+          | mk d2 r2 =>
+            intro e rr
+            simp only at e rr
+            subst e
+            cases r1 with
+            | error x => exact rfl
+            | ok u => exact tl _ _ _ _ _ rr
+
+theorem sameOutcome_ok_iff {α β : Type} {x : Except CfgErr α} {y : Except CfgErr β} (h : SameOutcome x y) :
+    (∃ a, x = .ok a) ↔ (∃ b, y = .ok b) := by
+  cases x <;> cases y <;> simp_all [SameOutcome]
+
+end Sim
+
+theorem addPermanent_sim {σ₁ σ₂ : Type} {S₁ : Store σ₁} {S₂ : Store σ₂} {Rel : σ₁ → σ₂ → Int → Prop}
+    (sim : StoreSim S₁ S₂ Rel) {db1 : IPDB σ₁} {db2 : IPDB σ₂} {t : Int} (h : DbRel Rel db1 db2 t)
+    (ip : Option Ip4) (d : Duid) :
+    (db1.addPermanent S₁ t ip d).2 = (db2.addPermanent S₂ t ip d).2 ∧
+      DbRel Rel (db1.addPermanent S₁ t ip d).1 (db2.addPermanent S₂ t ip d).1 t := by
+  have := step_sim sim h (.addPermanent ip d) trivial
+  exact ⟨DbRes.unit.inj this.1, this.2⟩
+
+theorem setDynamicRange_sim {σ₁ σ₂ : Type} {S₁ : Store σ₁} {S₂ : Store σ₂} {Rel : σ₁ → σ₂ → Int → Prop}
+    (sim : StoreSim S₁ S₂ Rel) {db1 : IPDB σ₁} {db2 : IPDB σ₂} {t : Int} (h : DbRel Rel db1 db2 t)
+    (a b : Option Ip4) :
+    (db1.setDynamicRange a b).2 = (db2.setDynamicRange a b).2 ∧
+      DbRel Rel (db1.setDynamicRange a b).1 (db2.setDynamicRange a b).1 t := by
+  have := step_sim sim h (.setDynamicRange a b) trivial
+  exact ⟨DbRes.unit.inj this.1, this.2⟩
+
+theorem start_refines (r : RawCfg) (clients : List RawClient) (t : Int) :
+    (∃ s, newServer clientsStore Clients.empty r clients t = .ok s) ↔ (∃ s, newServer tableStore ([] : Table) r clients t = .ok s) := by
+  rw [newServer_eq, newServer_eq]
+  exact sameOutcome_ok_iff (newServerP_sim _ _ _ _ t
+    (fun db1 db2 ip d h => addPermanent_sim clients_table_sim h ip d)
+    (fun db1 db2 a b h => setDynamicRange_sim clients_table_sim h a b)
+    Clients.empty ([] : Table) (R.empty t) r clients)
+
 end PsaDhcp.Proofs.ConfigP
